@@ -251,7 +251,7 @@ def corruptions(kind, fields, rng):
         if t in ("0100", "0200"):
             continue                      # int("0100") == 100: numerically the right kind, not a corruption
         out.append(("domain:OFXHEADER", setv("OFXHEADER", t)))
-    for t in ("abc", "1O2", "v102", "10.2", "-102", "1 02", "x"):
+    for t in ("abc", "1O2", "v102", "10.2", "-102", "1 02", "x", "1_0_2", "+102", "0x66"):
         out.append(("version:non-numeric", setv("VERSION", t)))
     for t in ("1000", "1020", "10200", "99999999"):
         out.append(("version:over-long", setv("VERSION", t)))
@@ -450,7 +450,7 @@ def mutate(rng, s):
 
 def malformed_texts(rng, n):
     out = []
-    vals1 = {"OFXHEADER": ["100", "1", "200", "٠١٠٠"], "DATA": ["OFXSGML", "X"], "VERSION": ["102", "9999", "160", "١٠٢"], "SECURITY": ["NONE", "TYPE1", "a_b", "é"],
+    vals1 = {"OFXHEADER": ["100", "1", "200", "٠١٠٠"], "DATA": ["OFXSGML", "X"], "VERSION": ["102", "9999", "160", "١٠٢", "1_0_2", "1_", "+102"], "SECURITY": ["NONE", "TYPE1", "a_b", "é"],
              "ENCODING": ["USASCII", "UTF-8", "UNICODE"], "CHARSET": ["1252", "ISO-8859-1", "NONE"], "COMPRESSION": ["NONE", "GZIP"],
              "OLDFILEUID": ["NONE", "a-b_C", "XNEWFILEUID", "OLDFILEUID", "COMPRESSION"], "NEWFILEUID": ["NONE", "Z9-", "NEWFILEUID", "x" * 36, "x" * 37]}
     vals2 = {"OFXHEADER": ["200", "100", "٢٠٠"], "VERSION": ["200", "203", "220", "204", "٢٠٣"], "SECURITY": ["NONE", "TYPE1", "ü"], "OLDFILEUID": ["NONE", "a-b"], "NEWFILEUID": ["NONE", "Zz_9", "x" * 37]}
@@ -520,7 +520,7 @@ def deep_token_strings(rng, n):
             # a correct skeleton with a few tokens replaced: close to the accept/reject boundary
             toks = []
             for f in V1_FIELDS:
-                toks += [f + ":", rng.choice(["100", "OFXSGML", "102", "NONE", "USASCII", "1252", "A", "1", "NONEOLDFILEUID", "A_"]), rng.choice(["", " ", "\n"])]
+                toks += [f + ":", rng.choice(["100", "OFXSGML", "102", "NONE", "USASCII", "1252", "A", "1", "NONEOLDFILEUID", "A_", "1_0", "_"]), rng.choice(["", " ", "\n"])]
             for _ in range(rng.choice([0, 1, 2, 3])):
                 toks[rng.randrange(len(toks))] = rng.choice(t1)
             if rng.random() < 0.3:
